@@ -150,6 +150,15 @@ def run_case(ctx, g, rng):
         kw["converter"] = conv
     arg = rng.choice([uris, tuple(uris), (u for u in uris), set(uris)]) if uris else uris
     o = call(curies.discover, arg, **kw)
+    if conv is not None and o[0] == "ret" and rng.random() < 0.5:
+        # the supplied converter learns (by a merge: its number of records and its canonical URI prefixes stay) a
+        # URI-prefix synonym that recognises some of the URIs; the same URIs are discovered again
+        learn = next((u_[: u_.rfind("/") + 1] for u_ in uris if u_.count("/") >= 3 and not is_github_issue(u_)), None)
+        if learn and learn not in {x for r in spec.snapshot(conv) for x in spec.all_u(r)}:
+            first = spec.snapshot(conv)[0]
+            call(conv.add_prefix, first.prefix, first.uri_prefix, None, [learn], merge=True)
+            call(curies.discover, list(uris), **kw)
+            S.counters["wl:discovered-again-after-the-converter-learnt-a-synonym"] += 1
     dl = delims or ["#", "/", "_"]
     ft = set()
     if len(set(uris)) < len(uris):
